@@ -108,7 +108,15 @@ class SeqExec(HeapExec):
         elif name in ("tuple", "len", "next", "reversed", "list", "iter", "enumerate", "zip", "all", "any", "getattr"):
             yield p, V("builtin", name)
         else:
-            raise Unsupported("global name %s" % name)
+            h = self.find_helper(name)
+            if h is None:
+                raise Unsupported("global name %s" % name)
+            v = self.helper_as_value(h, p)
+            yield p, (v if v is not None else V("helper", h))
+
+    def helper_as_value(self, h, p):
+        """a helper function used as a value rather than called (worlds override)"""
+        return None
 
     def truth(self, v, p, e=None):
         if v.k == "qseq":
@@ -199,6 +207,10 @@ class SeqExec(HeapExec):
                 if (c, attr) in self.reg.methods or (c, attr) in self.reg.statics:
                     yield p, V("bound", (obj, c, attr))
                     return
+            h = self.find_helper(attr, cls) if cls == self.fi.cls else None
+            if h is not None and h.role in ("method", "static"):
+                yield p, V("helper", h, {"self": obj if h.role == "method" else None})
+                return
             raise Unsupported("attribute .%s of %s object" % (attr, cls))
         if obj.k == "module":
             fn = self.reg.modules[obj.t].get(attr)
@@ -211,7 +223,12 @@ class SeqExec(HeapExec):
                 if (c, attr) in self.reg.statics:
                     yield p, V("static", (c, attr))
                     return
-            raise Unsupported("static attribute %s.%s" % (obj.t, attr))
+            # a helper of the class under verification reached through the class: static, or a method called with an explicit self
+            h = self.find_helper(attr, obj.t) if obj.t == self.fi.cls else None
+            if h is None or h.role not in ("static", "method"):
+                raise Unsupported("static attribute %s.%s" % (obj.t, attr))
+            yield p, V("helper", h)
+            return
         raise Unsupported("attribute load .%s on %r" % (attr, obj))
 
     def attr_store(self, obj, attr, v, p, tgt):
@@ -404,6 +421,10 @@ class SeqExec(HeapExec):
             else:
                 spec = self.reg.functions[fv.t]
                 yield from self.apply_named(spec, pos, kw, p, "call:%s" % fv.t)
+        elif fv.k == "helper":
+            recv = (fv.x or {}).get("self") if isinstance(fv.x, dict) else None
+            argnodes = ([None] if recv is not None else []) + list(e.args)
+            yield from self.inline_call(fv.t, ([recv] if recv is not None else []) + pos, kw, p, argnodes)
         else:
             raise Unsupported("call of %r in %s" % (fv, ast.unparse(e)))
 
